@@ -20,7 +20,7 @@ LEVEL = "model_checking"
 RULE = ("E1: product of method x request body length x response body length x server SZX x client maximum SZX x mid-transfer "
         "reduction point (boundary lengths 0,1,15-17,31-33,1023-1025,1124/1125,2048/2049,3000) run to completion against the "
         "strict server (also one that states its own larger SZX in its 2.31s); every server misbehaviour x block position (wrong NUM, M on the final "
-        "ack, short block, ETag change/vanishing, skipped/stale block, M past the end, later block refused 4.08/5.03 or answered without Block2, empty non-final block); requests carry Content-Format / Accept / query and follow-ups must repeat them; E2: all schedules with <= K drops/duplications of the "
+        "ack, short block, ETag change/vanishing, skipped/stale block, M past the end, later block refused 4.08/5.03 or answered without Block2, empty non-final block); requests that carry the application's own Block2 option (NUM 0..n); requests carry Content-Format / Accept / query and follow-ups must repeat them; E2: all schedules with <= K drops/duplications of the "
         "individual datagrams of 3-5 block transfers; distinct = distinct parameter tuple / schedule")
 ASSUMPTIONS = [
     "oracle: mcv/refpeer.RefBlockServer, written from RFC 7959 (offset contiguity, NUM*size, M flag, SZX monotonic)",
@@ -45,12 +45,15 @@ def transfer(method, l1, l2, sszx, cexp, reduce_at, reduce_to, misbehave, seed, 
     try:
         cli = w.add_context("cli", *CLI)
         rep = body(l2, seed, 101)
+        app_b2 = misbehave[1] if misbehave and misbehave[0] == "ok-app-b2" else None
         srv = w.add_peer(RefBlockServer("srv", *SRV, representation=rep, szx=sszx, reduce_at=reduce_at, reduce_to=reduce_to,
-                                        misbehave=misbehave))
+                                        misbehave=None if app_b2 is not None else misbehave))
         pl = body(l1, seed, 7) if method != "GET" else b""
         m = Message(code=METHODS[method], uri_path=["res"], uri_query=["k=v"], payload=pl, accept=0)
         if pl:
             m.opt.content_format = 60     # a body comes with its format; like every other option it belongs to each follow-up request
+        if app_b2 is not None:
+            m.opt.block2 = (app_b2, False, sszx)     # the application itself names the block it wants the (managed) request to start at
         m.remote = cli.remote(SRV)
         m.remote.maximum_block_size_exp = cexp
         req = cli.ctx.request(m)
@@ -88,7 +91,18 @@ def check_transfer(res, params, seed):
     res.evaluations += 1
     res.traces += 1
     res.transitions += out["exchanges"]
-    if mis is None or mis[0].startswith("ok-"):
+    if mis is not None and mis[0] == "ok-app-b2" and mis[1] >= 1:
+        # the application asked for block N >= 1 itself: an error, that block alone, or everything from that block on - never bytes
+        # from elsewhere in the representation passed off as the answer
+        size = 1 << (min(sszx, cexp) + 4)
+        failed_loudly = out["exc"] is not None or (out["code"] is not None and out["code"] >= 128)
+        if not out["done"]:
+            res.violate(Violation("transfer-hangs", "ends", "pending", "protocol.py", case, key="hang-app-b2"))
+        elif not failed_loudly and out["payload"] not in (rep[mis[1] * size:(mis[1] + 1) * size], rep[mis[1] * size:]):
+            res.violate(Violation("corrupt-body-returned", "error, block %d alone, or the representation from block %d on" % (mis[1], mis[1]),
+                                  "%d bytes, first difference from the representation at %s" % (len(out["payload"]), first_diff(out["payload"], rep)),
+                                  "protocol.py:BlockwiseRequest._complete_by_requesting_block2", case, key="app-b2"))
+    elif mis is None or mis[0].startswith("ok-"):
         if out["srv_violations"]:
             res.violate(Violation("wire-block-rules", "offsets contiguous, NUM*size==offset, M only on non-final blocks, SZX never grows",
                                   out["srv_violations"][:3], "protocol.py:BlockwiseRequest._run", case, key=out["srv_violations"][0][0].split(" ")[0] + out["srv_violations"][0][0].split(" ")[1]))
@@ -194,6 +208,14 @@ def grid(tier):
             for at in (0, 1, 2):
                 for l1 in {0: (17, 40, 100), 2: (65, 150, 330), 6: (1125, 2049, 3000)}[szx]:
                     out.append((method, l1, 20, szx, szx, None, None, ("ok-stateless", at)))
+    # the application puts a Block2 option of its own on a managed request: NUM 0 is a size hint, NUM >= 1 asks for that block
+    for method in ("GET", "FETCH"):
+        for szx in (0, 2):
+            size = 1 << (szx + 4)
+            for nb in (1, 2, 3, 5):
+                for tail in (0, 3):
+                    for num in range(0, nb + 1):
+                        out.append((method, 10 if method == "FETCH" else 0, size * (nb - 1) + (tail or size), szx, 6, None, None, ("ok-app-b2", num)))
     for method in ("PUT", "POST"):
         for sszx in (1, 2, 3, 6):
             for rto in range(0, sszx):
